@@ -471,7 +471,7 @@ func evalCase(d caseDesc) ev.Result {
 		if a.Kind == "mutate" {
 			o, e1 := refcbor.ParseAll(orig)
 			n, e2 := refcbor.ParseAll(msg)
-			if e1 == nil && e2 == nil && bytes.Equal(refcbor.LenientNormal(o), refcbor.LenientNormal(n)) {
+			if e1 == nil && e2 == nil && refcbor.LenientEqual(o, n) {
 				return ev.Trivial("equivalent-encoding")
 			}
 		}
